@@ -27,6 +27,7 @@ func RunOn(ctx *report.Ctx, prop, dir string, v load.Variant) (pkgs []string, nf
 	}
 	f := facts.Build(p)
 	env := &Env{P: p, F: f, C: ctx}
+	env.installAccessorPaths()
 	Registry[prop](env)
 	env.buildCoverage()
 	if sentinelUsers[prop] {
